@@ -55,7 +55,7 @@ func noOutcome(in ssa.Instruction, c *core.Canon) (string, bool) { return "", fa
 
 // C08: media and tables are retained exactly when they follow retained text.
 func C08(p *core.Program, r *core.Report) {
-	r.Explanation = "E4: the loop of RelevantElements.Process is extracted as a transition function of one iteration (boolean loop variables become state atoms) and compared with the documented automaton: content element -> in-content run opens; non-content text -> run closes; any other element is marked content iff the run is open; nothing else is written. E1: in ExtractContent the filters run in the order RelevantElements, LeadImageFinder, NestedElementRetainer on every path, after the last processDocument and before GetImageURLs. E2: the lead image finder promotes with a single SetIsContent(true) that is outside every loop and its scoring loop has no promotion event; candidates are only non-content images/figures before the last content text. E3: Element.SetIsContent is called only from package docfilter and TextBlock.ApplyToModel (layering)."
+	r.Explanation = "E4: the loop of RelevantElements.Process is extracted as a transition function of one iteration (boolean loop variables become state atoms) and compared with the documented automaton: content element -> in-content run opens; non-content text -> run closes; any other element is marked content iff the run is open; nothing else is written. E1: in ExtractContent the filters run in the order RelevantElements, LeadImageFinder, NestedElementRetainer on every path, after the last processDocument and before GetImageURLs. E2: the lead image finder promotes with a single SetIsContent(true) that is outside every loop and its scoring loop has no promotion event; candidates are only non-content images/figures before the last content text. E3: Element.SetIsContent is called only from package docfilter and TextBlock.ApplyToModel (layering). E5: every builder method that appends a table/embed/tag flushes the pending text first (shared with C02-O5), so the element list has media after the text that precedes them."
 	r.NotCovered = "the image scorers and the 13-point threshold semantics (numeric), which text blocks the classifier retains, and the correctness of the element order produced by the converter (C02)."
 
 	// ---- E4
@@ -129,52 +129,10 @@ func C08(p *core.Program, r *core.Report) {
 	}
 
 	// ---- E1
-	ec := mustInl(p, r, "E1", "(*"+extractorPkg+".ContentExtractor).ExtractContent")
-	if ec != nil {
-		find := func(key string) []ssa.CallInstruction {
-			return core.Calls(ec, func(c ssa.CallInstruction) bool { return core.IsCallTo(c, key) })
-		}
-		rel := find("(*" + docfilterPkg + ".RelevantElements).Process")
-		lead := find("(*" + docfilterPkg + ".LeadImageFinder).Process")
-		nest := find("(*" + docfilterPkg + ".NestedElementRetainer).Process")
-		proc := find("(*mod/internal/webdoc.TextDocument).ApplyToModel")
-		imgs := find("(*mod/internal/webdoc.Document).GetImageURLs")
-		if len(rel) != 1 || len(lead) != 1 || len(nest) != 1 || len(proc) == 0 {
-			r.Add("E1", "ExtractContent: the three document filters run once each", p.Pos(ec.Pos()), false,
-				fmt.Sprintf("RelevantElements=%d LeadImageFinder=%d NestedElementRetainer=%d TextDocument.ApplyToModel=%d", len(rel), len(lead), len(nest), len(proc)))
-		} else {
-			is := func(x ssa.CallInstruction) func(ssa.Instruction) bool {
-				return func(in ssa.Instruction) bool { return in == ssa.Instruction(x) }
-			}
-			for _, ret := range core.Returns(ec) {
-				for name, x := range map[string]ssa.CallInstruction{"RelevantElements": rel[0], "LeadImageFinder": lead[0], "NestedElementRetainer": nest[0]} {
-					ok, w := core.MustPassThrough(ec, ret, is(x), nil)
-					r.Add("E1", "ExtractContent: "+name+" runs on every path", p.Pos(ret.Pos()), ok, "", w...)
-				}
-			}
-			ok1, _ := core.MustPassThrough(ec, lead[0], is(rel[0]), nil)
-			r.Add("E1", "RelevantElements before LeadImageFinder", p.Pos(lead[0].Pos()), ok1 && neverAfter(rel[0], lead[0]), "the lead image must not open a content run")
-			ok2, _ := core.MustPassThrough(ec, nest[0], is(lead[0]), nil)
-			r.Add("E1", "LeadImageFinder before NestedElementRetainer", p.Pos(nest[0].Pos()), ok2 && neverAfter(lead[0], nest[0]), "")
-			for _, pc := range proc {
-				r.Add("E1", "text classification (TextDocument.ApplyToModel) precedes the document filters", p.Pos(pc.Pos()), neverAfter(pc, rel[0]), "")
-			}
-			for _, gi := range imgs {
-				ok3, _ := core.MustPassThrough(ec, gi, is(nest[0]), nil)
-				r.Add("E1", "image URLs are collected after all filters", p.Pos(gi.Pos()), ok3 && neverAfter(nest[0], gi), "")
-			}
-			// all three filters get the document that is returned
-			c := core.NewCanon(p)
-			docs := map[string]bool{}
-			for _, x := range []ssa.CallInstruction{rel[0], lead[0], nest[0]} {
-				docs[c.Of(x.Common().Args[1])] = true
-			}
-			for _, ret := range core.Returns(ec) {
-				docs[c.Of(ret.Results[0])] = true
-			}
-			r.Add("E1", "filters process the document that is returned", p.Pos(ec.Pos()), len(docs) == 1, fmt.Sprintf("%d distinct document values", len(docs)))
-		}
-	}
+	checkFilterOrder(p, r, "E1")
+
+	// ---- E5: an element enters the document after the text that precedes it (shared with C02-O5)
+	checkFlushBeforeElement(p, r, "E5")
 
 	// ---- E2: LeadImageFinder.Process with its helpers expanded
 	lp := mustInl(p, r, "E2", "(*"+docfilterPkg+".LeadImageFinder).Process")
@@ -259,4 +217,57 @@ func C08(p *core.Program, r *core.Report) {
 	}
 	r.Floor("E3", 5)
 	r.Stats["setiscontent_sites"] = n
+}
+
+// checkFilterOrder (E1 of C08, shared with C07-N5): in ExtractContent the three document filters
+// run once each, on every path, in the order RelevantElements, LeadImageFinder,
+// NestedElementRetainer (the stack pass must be the last one to change content flags).
+func checkFilterOrder(p *core.Program, r *core.Report, rule string) {
+	ec := mustInl(p, r, rule, "(*"+extractorPkg+".ContentExtractor).ExtractContent")
+	if ec != nil {
+		find := func(key string) []ssa.CallInstruction {
+			return core.Calls(ec, func(c ssa.CallInstruction) bool { return core.IsCallTo(c, key) })
+		}
+		rel := find("(*" + docfilterPkg + ".RelevantElements).Process")
+		lead := find("(*" + docfilterPkg + ".LeadImageFinder).Process")
+		nest := find("(*" + docfilterPkg + ".NestedElementRetainer).Process")
+		proc := find("(*mod/internal/webdoc.TextDocument).ApplyToModel")
+		imgs := find("(*mod/internal/webdoc.Document).GetImageURLs")
+		if len(rel) != 1 || len(lead) != 1 || len(nest) != 1 || len(proc) == 0 {
+			r.Add(rule, "ExtractContent: the three document filters run once each", p.Pos(ec.Pos()), false,
+				fmt.Sprintf("RelevantElements=%d LeadImageFinder=%d NestedElementRetainer=%d TextDocument.ApplyToModel=%d", len(rel), len(lead), len(nest), len(proc)))
+		} else {
+			is := func(x ssa.CallInstruction) func(ssa.Instruction) bool {
+				return func(in ssa.Instruction) bool { return in == ssa.Instruction(x) }
+			}
+			for _, ret := range core.Returns(ec) {
+				for name, x := range map[string]ssa.CallInstruction{"RelevantElements": rel[0], "LeadImageFinder": lead[0], "NestedElementRetainer": nest[0]} {
+					ok, w := core.MustPassThrough(ec, ret, is(x), nil)
+					r.Add(rule, "ExtractContent: "+name+" runs on every path", p.Pos(ret.Pos()), ok, "", w...)
+				}
+			}
+			ok1, _ := core.MustPassThrough(ec, lead[0], is(rel[0]), nil)
+			r.Add(rule, "RelevantElements before LeadImageFinder", p.Pos(lead[0].Pos()), ok1 && neverAfter(rel[0], lead[0]), "the lead image must not open a content run")
+			ok2, _ := core.MustPassThrough(ec, nest[0], is(lead[0]), nil)
+			r.Add(rule, "LeadImageFinder before NestedElementRetainer", p.Pos(nest[0].Pos()), ok2 && neverAfter(lead[0], nest[0]), "")
+			for _, pc := range proc {
+				r.Add(rule, "text classification (TextDocument.ApplyToModel) precedes the document filters", p.Pos(pc.Pos()), neverAfter(pc, rel[0]), "")
+			}
+			for _, gi := range imgs {
+				ok3, _ := core.MustPassThrough(ec, gi, is(nest[0]), nil)
+				r.Add(rule, "image URLs are collected after all filters", p.Pos(gi.Pos()), ok3 && neverAfter(nest[0], gi), "")
+			}
+			// all three filters get the document that is returned
+			c := core.NewCanon(p)
+			docs := map[string]bool{}
+			for _, x := range []ssa.CallInstruction{rel[0], lead[0], nest[0]} {
+				docs[c.Of(x.Common().Args[1])] = true
+			}
+			for _, ret := range core.Returns(ec) {
+				docs[c.Of(ret.Results[0])] = true
+			}
+			r.Add(rule, "filters process the document that is returned", p.Pos(ec.Pos()), len(docs) == 1, fmt.Sprintf("%d distinct document values", len(docs)))
+		}
+	}
+
 }
